@@ -251,6 +251,41 @@ def run(sc, workdir, nextest_bin=NEXTEST):
     return res
 
 
+def confirm(sc, r, evaluate, base, max_runs=4):
+    """A violation observed on a real run may be the machine's doing rather than nextest's (a loaded machine delays signals,
+    stretches timings, lets a process die before it has logged its start).  A scenario whose first run raised something is
+    therefore run again, alone, and a violation is reported only if the same kind of violation shows up in at least two runs;
+    runs in which the scenario did not unfold as scripted (`machinery`) count as not evaluable.
+    Returns (violations to report, note or None)."""
+    first = evaluate(sc, r)
+    if not first: return [], None
+    runs = [first]
+    k = 0
+    while len(runs) < max_runs:
+        evaluable = [vs for vs in runs if not any(v.get("kind") == "machinery" for v in vs)]
+        real = [vs for vs in evaluable if vs]
+        if len(evaluable) >= 2 and (len(real) >= 2 or len(real) == 0): break
+        if len(evaluable) >= 3: break
+        r2 = run(sc, os.path.join(base, f"rerun-{sc.name}-{k}")); k += 1
+        if getattr(r2, "error", None): continue
+        runs.append(evaluate(sc, r2))
+    evaluable = [vs for vs in runs if not any(v.get("kind") == "machinery" for v in vs)]
+    if len(evaluable) < 2:
+        return [], f"scenario {sc.name}: not evaluable on this machine in {len(runs)} runs ({[v['what'][:80] for vs in runs for v in vs if v.get('kind') == 'machinery'][:2]})"
+    counts = {}
+    for vs in evaluable:
+        for kd in {v["kind"] for v in vs}: counts[kd] = counts.get(kd, 0) + 1
+    confirmed_kinds = {kd for kd, n in counts.items() if n >= 2}
+    out = []; seen = set()
+    for vs in evaluable:
+        for v in vs:
+            if v["kind"] in confirmed_kinds and v["kind"] not in seen:
+                seen.add(v["kind"]); v = dict(v); v["payload"] = dict(v.get("payload", {}), reproduced_in_runs=counts[v["kind"]], runs=len(evaluable)); out.append(v)
+    dropped = sorted(set(counts) - confirmed_kinds)
+    note = f"scenario {sc.name}: {dropped} seen once in {len(evaluable)} runs and not reproduced (not reported)" if dropped else None
+    return out, note
+
+
 def run_many(scenarios, base, jobs=8):
     """Run scenarios in parallel (each in its own work dir); returns [(scenario, result)] in order."""
     out = [None] * len(scenarios)
